@@ -289,7 +289,7 @@ func (runInfo *runInfoStruct) callVMFunctionDirect(f reflect.Value, callExpr *as
 		if runInfo.err != nil {
 			return true
 		}
-		args = append(args, runInfo.rv)
+		args = append(args, unalias(runInfo.rv))
 	}
 
 	if !runInfo.options.Debug {
@@ -453,7 +453,7 @@ func (runInfo *runInfoStruct) makeCallArgs(rt reflect.Type, isRunVMFunction bool
 			return nil, false
 		}
 		if isRunVMFunction {
-			args = append(args, reflect.ValueOf(runInfo.rv))
+			args = append(args, reflect.ValueOf(unalias(runInfo.rv)))
 		} else {
 			runInfo.rv, runInfo.err = convertReflectValueToType(runInfo.rv, rt.In(indexInReal))
 			if runInfo.err != nil {
@@ -462,7 +462,7 @@ func (runInfo *runInfoStruct) makeCallArgs(rt reflect.Type, isRunVMFunction bool
 				runInfo.rv = nilValue
 				return nil, false
 			}
-			args = append(args, runInfo.rv)
+			args = append(args, unalias(runInfo.rv))
 		}
 		indexIn++
 		indexInReal++
@@ -481,7 +481,7 @@ func (runInfo *runInfoStruct) makeCallArgs(rt reflect.Type, isRunVMFunction bool
 			return nil, false
 		}
 		if isRunVMFunction {
-			args = append(args, reflect.ValueOf(runInfo.rv))
+			args = append(args, reflect.ValueOf(unalias(runInfo.rv)))
 		} else {
 			runInfo.rv, runInfo.err = convertReflectValueToType(runInfo.rv, rt.In(indexInReal))
 			if runInfo.err != nil {
@@ -490,7 +490,7 @@ func (runInfo *runInfoStruct) makeCallArgs(rt reflect.Type, isRunVMFunction bool
 				runInfo.rv = nilValue
 				return nil, false
 			}
-			args = append(args, runInfo.rv)
+			args = append(args, unalias(runInfo.rv))
 		}
 		return args, false
 	}
@@ -521,7 +521,7 @@ func (runInfo *runInfoStruct) makeCallArgs(rt reflect.Type, isRunVMFunction bool
 		indexSlice := 0
 		for indexInReal < numInReal {
 			if isRunVMFunction {
-				args = append(args, reflect.ValueOf(sliceV.Index(indexSlice)))
+				args = append(args, reflect.ValueOf(unalias(sliceV.Index(indexSlice))))
 			} else {
 				runInfo.rv, runInfo.err = convertReflectValueToType(sliceV.Index(indexSlice), rt.In(indexInReal))
 				if runInfo.err != nil {
@@ -530,7 +530,7 @@ func (runInfo *runInfoStruct) makeCallArgs(rt reflect.Type, isRunVMFunction bool
 					runInfo.rv = nilValue
 					return nil, false
 				}
-				args = append(args, runInfo.rv)
+				args = append(args, unalias(runInfo.rv))
 			}
 			indexIn++
 			indexInReal++
@@ -555,7 +555,7 @@ func (runInfo *runInfoStruct) makeCallArgs(rt reflect.Type, isRunVMFunction bool
 			return nil, false
 		}
 		if isRunVMFunction {
-			args = append(args, reflect.ValueOf(runInfo.rv))
+			args = append(args, reflect.ValueOf(unalias(runInfo.rv)))
 		} else {
 			runInfo.rv, runInfo.err = convertReflectValueToType(runInfo.rv, rt.In(indexInReal))
 			if runInfo.err != nil {
@@ -564,7 +564,7 @@ func (runInfo *runInfoStruct) makeCallArgs(rt reflect.Type, isRunVMFunction bool
 				runInfo.rv = nilValue
 				return nil, false
 			}
-			args = append(args, runInfo.rv)
+			args = append(args, unalias(runInfo.rv))
 		}
 		return args, false
 	}
@@ -585,7 +585,7 @@ func (runInfo *runInfoStruct) makeCallArgs(rt reflect.Type, isRunVMFunction bool
 				runInfo.rv = nilValue
 				return nil, false
 			}
-			args = append(args, runInfo.rv)
+			args = append(args, unalias(runInfo.rv))
 			indexExpr++
 		}
 		return args, false
@@ -610,7 +610,7 @@ func (runInfo *runInfoStruct) makeCallArgs(rt reflect.Type, isRunVMFunction bool
 		runInfo.rv = nilValue
 		return nil, false
 	}
-	args = append(args, runInfo.rv)
+	args = append(args, unalias(runInfo.rv))
 
 	return args, true
 }
